@@ -624,7 +624,8 @@ def _build_expression(
 
         else:
             # contraction involves traces / reductions
-            eq = inputs_output_to_eq(inputs, output)
+            # (n.b. the indices might not be single characters)
+            eq = inputs_output_to_eq(inputs, output, canonicalize=True)
 
             def fn(*arrays, backend=None):
                 return ar.do("einsum", eq, arrays[0], like=backend)
